@@ -14,6 +14,9 @@ def rust(level, quick_plan, thorough_plan=None, timeout=None):
 CHECKS = {
     "C01": rust("model_checking", [("std", "c01", [])], [("std", "c01", []), ("nostd", "c01", [])]),
     "C02": rust("model_checking", [("std", "c02", [])], [("std", "c02", []), ("nostd", "c02", [])]),
+    "C04": rust("model_checking", [("std", "c04", [])], [("std", "c04", []), ("nostd", "c04", [])]),
+    "C07": rust("model_checking", [("std", "c07", [])], [("std", "c07", []), ("nostd", "c07", [])]),
+    "C10": rust("model_checking", [("std", "c10", [])]),
     "C03": rust("model_checking", [("std", "c03", [])], [("std", "c03", []), ("nostd", "c03", [])]),
 }
 
